@@ -383,12 +383,18 @@ def run_block(family, p, acc):
                     for rb in ("default", "int64", "map"):
                         ok = rowscan_one(a, emb7, common, cs, uc, mk, rb, cells, vals, acc, probe=first)
                         first = False
+                        if a.ndim == 2 and not uc and rb == "default" and mk in ("none", "inj"):
+                            # the same values in Fortran order and as a transposed view (memory order != index order)
+                            for lname, arr_in in (("F", numpy.asfortranarray(a)), ("T-view", numpy.ascontiguousarray(a.T).T)):
+                                if rowscan_one(arr_in, emb7, common, cs, uc, mk, rb, cells, vals, acc, layout=lname):
+                                    acc.case(("rs", shape, p["k"], p["ei"], p["dup"], cells, tuple(vals), cs, uc, mk, rb, lname), nontrivial=True, outcome=("rs", cs, mk, lname),
+                                             sample=lambda: {"shape": list(shape), "layout": lname, "cells": list(cells), "values": vals, "common": cs, "mapping": mk})
                         if ok:
                             acc.case(("rs", shape, p["k"], p["ei"], p["dup"], cells, tuple(vals), cs, uc, mk, rb), nontrivial=True, outcome=("rs", cs, mk, rb),
                                      sample=lambda: {"shape": list(shape), "dominant": emb7[0], "cells": list(cells), "values": vals, "common": cs, "counts": uc, "mapping": mk, "readback": rb})
 
 
-def rowscan_one(a, emb7, common, cs, uc, mk, rb, cells, vals, acc, probe=False):
+def rowscan_one(a, emb7, common, cs, uc, mk, rb, cells, vals, acc, probe=False, layout=None):
     from catii.iindexes import iindex
 
     allv = list(emb7)
@@ -403,7 +409,7 @@ def rowscan_one(a, emb7, common, cs, uc, mk, rb, cells, vals, acc, probe=False):
     else:
         mapping = {v: allv[(i + 1) % len(allv)] for i, v in enumerate(allv)}
     case = {"rowscan": True, "shape": list(a.shape), "emb": [str(e) for e in emb7], "cells": list(cells), "values": [str(v) for v in vals], "common": cs,
-            "counts": uc, "mapping": mk, "readback": rb}
+            "counts": uc, "mapping": mk, "readback": rb, "layout": layout}
     counts = None
     if uc:
         counts = {}
@@ -467,7 +473,11 @@ def replay(case, site=None):
             a[c] = v
         a = a.reshape(shape)
         common = {"omit": None, "dominant": emb7[0], "rare": vals[0], "absent": emb7[6]}[case["common"]]
-        rowscan_one(a, emb7, common, case["common"], case["counts"], case["mapping"], case["readback"], tuple(case["cells"]), vals, acc)
+        if case.get("layout") == "F":
+            a = numpy.asfortranarray(a)
+        elif case.get("layout") == "T-view":
+            a = numpy.ascontiguousarray(a.T).T
+        rowscan_one(a, emb7, common, case["common"], case["counts"], case["mapping"], case["readback"], tuple(case["cells"]), vals, acc, layout=case.get("layout"))
     else:
         emb = tuple(int(e) for e in case["emb"])
         arr = numpy.array(case["array"], dtype=numpy.int64).reshape(tuple(case["shape"]))
